@@ -14,7 +14,7 @@
    gen_kinds (Gen/StreamOrder.v) is REGENERATED from /repo on every run: the orders of send/push/append in
    the three producers, of subscribe/snapshot + the filter expression in the three handlers, the channel
    capacities and the extent of the seq-mutex guard in TaskEmitter::emit (k_span). *)
-From RipV Require Import Base.Prelude Model.Subscribe Proofs.SubscribeProofs Gen.StreamOrder.
+From RipV Require Import Base.Prelude Model.Subscribe Proofs.SubscribeProofs Proofs.SubscribeRebuildProofs Gen.StreamOrder.
 Local Open Scope nat_scope.
 
 (* record-then-publish x subscribe-then-snapshot x `seq > last`: every n, every schedule, every number
@@ -347,3 +347,63 @@ Example c06_demo_nolag :
   /\ map attached (g_subs (final (code_cfg (Some 3)) 3 3 demo_sched)) = [true; true; true].
 Proof. exact demo_nolag. Qed.
 Print Assumptions c06_demo_nolag.
+
+(* ---------- the thread kind's history while the sidecar is being REBUILT (finding S3-live, repaired in /repo) ----------
+   tfinal d n m sched = the thread store: one writer appending frames 0..n-1 (each append: seq mutex; log; sidecar line;
+   broadcast + release), m readers (subscribe; try_replay; when refused: log read + sidecar rebuild; then live), ANY
+   schedule over {TW writer step, TR i reader step, TRefuse i = reader i's next unlocked try_replay is refused although the
+   sidecar is healthy (its read fell inside the append of the last line), TDrop = the cache file is lost}.
+   d = the discipline of the rebuild: rd_locked (log read + rebuild under the writers' mutex, sidecar tried again under it),
+   rd_atomic (temporary file renamed over the sidecar).  TExactlyOnce: what an attached reader has is 0..q-1, q covers every
+   frame broadcast so far, q = n once the writer has finished. *)
+Theorem c06_exactly_once_during_rebuild : forall (d : rdisc), rdisc_ok d = true ->
+  forall (n m : nat) (sched : list tactor) (i : nat) (x : tsub),
+  nth_error (t_subs (tfinal d n m sched)) i = Some x -> tattached x = true ->
+  TExactlyOnce n (tfinal d n m sched) x.
+Proof. exact rebuild_exactly_once. Qed.
+Print Assumptions c06_exactly_once_during_rebuild.
+
+(* today's source: the discipline read from ContinuityStore::replay_events / replay_events_locked and
+   ContinuityStreamCache::rebuild_best_effort (obligation gen_rebuild_disc_ok) *)
+Theorem c06_exactly_once_during_rebuild_code :
+  forall (n m : nat) (sched : list tactor) (i : nat) (x : tsub),
+  nth_error (t_subs (tfinal gen_rebuild_disc n m sched)) i = Some x -> tattached x = true ->
+  TExactlyOnce n (tfinal gen_rebuild_disc n m sched) x.
+Proof. exact (rebuild_exactly_once_checked gen_ok_replay_check gen_rebuild_disc gen_rebuild_disc_ok). Qed.
+Print Assumptions c06_exactly_once_during_rebuild_code.
+
+(* the code before the repair (rewrite in place, no lock shared with the writers): the witness replayed on the real code
+   (corpus/C06/rebuild_lost_append.json): the rebuild's older replay overwrites an append; reader 1 has [0;1;3] of 0..3 *)
+Theorem c06_rebuild_in_place_unlocked_refuted : TLoses in_place_unlocked 4 2 lost_append_sched.
+Proof. exact lost_append_loses. Qed.
+Print Assumptions c06_rebuild_in_place_unlocked_refuted.
+
+(* neither half of the repair is enough alone: EVERY other discipline loses a frame under some schedule
+   (rename without the lock: the older replay replaces a sidecar that already holds the next frame; lock without the rename:
+   a reader - readers take no lock - is served the well-formed prefix the rewrite has reached, corpus/C06/rebuild_prefix_visible.json) *)
+Theorem c06_rebuild_other_disciplines_refuted : forall (d : rdisc), rdisc_ok d = false ->
+  exists (n m : nat) (sched : list tactor), TLoses d n m sched.
+Proof. exact rebuild_other_disciplines_refuted. Qed.
+Print Assumptions c06_rebuild_other_disciplines_refuted.
+
+Example c06_lost_append_witness :
+  t_wk (tfinal in_place_unlocked 4 2 lost_append_sched) = 4 /\ t_log (tfinal in_place_unlocked 4 2 lost_append_sched) = [0; 1; 2; 3]
+  /\ t_side (tfinal in_place_unlocked 4 2 lost_append_sched) = [0; 1; 3]
+  /\ map tattached (t_subs (tfinal in_place_unlocked 4 2 lost_append_sched)) = [true; true]
+  /\ map tdelivered (t_subs (tfinal in_place_unlocked 4 2 lost_append_sched)) = [[0; 1; 2; 3]; [0; 1; 3]].
+Proof. exact lost_append_witness. Qed.
+Print Assumptions c06_lost_append_witness.
+
+(* non-vacuity: the same schedule under the repaired discipline, and a rebuild that really runs under the mutex *)
+Example c06_same_schedule_repaired :
+  t_wk (tfinal okd 4 2 lost_append_sched) = 4 /\ t_side (tfinal okd 4 2 lost_append_sched) = [0; 1; 2; 3]
+  /\ map tdelivered (t_subs (tfinal okd 4 2 lost_append_sched)) = [[0; 1; 2; 3]; [0; 1; 2; 3]].
+Proof. exact lost_append_repaired. Qed.
+Print Assumptions c06_same_schedule_repaired.
+
+Example c06_rebuild_under_the_mutex :
+  t_wk (tfinal okd 3 2 rebuild_under_lock_sched) = 3 /\ t_side (tfinal okd 3 2 rebuild_under_lock_sched) = [0; 1; 2] /\
+  map tattached (t_subs (tfinal okd 3 2 rebuild_under_lock_sched)) = [true; true] /\
+  map tdelivered (t_subs (tfinal okd 3 2 rebuild_under_lock_sched)) = [[0; 1; 2]; [0; 1; 2]].
+Proof. exact rebuild_under_lock_example. Qed.
+Print Assumptions c06_rebuild_under_the_mutex.
